@@ -426,7 +426,7 @@ pub fn prop_c12() -> Prop {
         id: "C12",
         scenarios: vec![
             Scenario { name: "proofs", f: c12_proofs, thorough_only: false,
-                bounds: "every shape of <=6 (quick) / <=9 (thorough) elements + 21 larger shapes (repeated content = multi-position targets, nested nodes, obscured children) x every target set of 0..2 (3) of its distinct element digests (single, multiple, one inside another, the root) optionally plus an absent digest x every digest order; completeness, acceptance by a root-digest-only verifier, minimal disclosure against harness-computed root-to-target paths; soundness: proof checked for another target set, proof with one more element elided, 4 verifiers with other roots, proof made for an enclosing envelope, the fully elided envelope",
+                bounds: "every shape of <=6 (quick) / <=9 (thorough) elements + 30 hand-written shapes (repeated content = multi-position targets, nested nodes, obscured children) x every target set of 0..2 (3) of its distinct element digests (single, multiple, one inside another, the root) optionally plus an absent digest x every digest order; completeness, acceptance by a root-digest-only verifier, minimal disclosure against harness-computed root-to-target paths; soundness: proof checked for another target set, proof with one more element elided, 4 verifiers with other roots, proof made for an enclosing envelope, the fully elided envelope",
                 api: &["proof_contains_set", "proof_contains_target", "confirm_contains_set", "confirm_contains_target", "elide", "elide_removing_target"] },
         ],
         assumptions: COMMON_ASSUMPTIONS.to_vec(),
@@ -438,7 +438,7 @@ pub fn prop_c15() -> Prop {
         id: "C15",
         scenarios: vec![
             Scenario { name: "walk", f: c15_walk, thorough_only: false,
-                bounds: "every shape of <=8 (quick) / <=10 (thorough) elements with known values + 21 larger shapes + obscured shapes <=5 x both walk modes (visit sequence, level, edge kind, parent threading against a harness traversal of case()) x digests(limit) for every limit 0..depth+2, deep/shallow digests, elements_count, subject/assertions, case predicates x every digest order",
+                bounds: "every shape of <=8 (quick) / <=10 (thorough) elements with known values + 30 hand-written shapes + obscured shapes <=5 x both walk modes (visit sequence, level, edge kind, parent threading against a harness traversal of case()) x digests(limit) for every limit 0..depth+2, deep/shallow digests, elements_count, subject/assertions, case predicates x every digest order",
                 api: &["walk", "elements_count", "digests", "deep_digests", "shallow_digests", "subject", "assertions", "has_assertions", "is_*"] },
             Scenario { name: "lookup", f: c15_lookup, thorough_only: false,
                 bounds: "subject with 1..3 assertions, each with predicate from {A, B}, in 8 forms (plain, elided predicate, elided object, object carrying assertions, decorated, decorated twice, whole assertion elided, whole assertion compressed) x query predicate {A, B, absent} given clear or elided x every digest order: assertions_with_predicate, assertion_with_predicate, optional_*, object(s)_for_predicate, extract_* with none / one / several matches",
